@@ -67,6 +67,11 @@ ATOMS = {
     "E": (lambda x: x.c == "s1"),
     "F": (lambda x: x.b != 2.0),
     "G": (lambda x: x.a <= 3),
+    # atoms the reader cannot express as (column, op, literal): they must stay in the in-memory filter
+    "H": (lambda x: x.c.isin(["s1", "s2"])),
+    "I": (lambda x: x.b.isna()),
+    "J": (lambda x: x.a > x.w),
+    "K": (lambda x: ~(x.a > 1)),
 }
 
 
@@ -78,6 +83,7 @@ def formulas(tier):
     trip = list(itertools.combinations(names[:5], 3))
     for a, b, c in trip if tier == "thorough" else trip[::2]:
         out += [("&|", a, b, c), ("|&", a, b, c)]
+    out += [("&|", "A", "H", "D"), ("|&", "I", "B", "C"), ("&|", "J", "C", "E"), ("|&", "K", "F", "A")]
     return out
 
 
@@ -170,14 +176,20 @@ def check_case(case, common, out):
                         viol(out, "C18.projection:fails", s, f"{type(ex).__name__}: {str(ex)[:200]}", replay)
             # (d) filters
             for f in formulas(tier):
-                for uf in (None, [("u", ">", 120)]):
+                ufs = (None, [("u", ">", 120)], [[("u", ">", 150)], [("a", "<=", 1)]]) if len(f) <= 3 else (None, [("u", ">", 120)])
+                for uf in ufs:
                     s = f"{sig0}|filter={f}|user_filters={uf}"
                     try:
                         rr = read(filters=uf) if uf is not None else read()
                         got = rr[eval_formula(f, rr)].compute()
-                        base = inmem[inmem.u > 120] if uf is not None else inmem
+                        if uf is None:
+                            base = inmem
+                        elif isinstance(uf[0], list):  # disjunctive normal form: OR of AND-lists
+                            base = inmem[(inmem.u > 150) | (inmem.a <= 1)]
+                        else:
+                            base = inmem[inmem.u > 120]
                         exp = base[eval_formula(f, base)]
-                        bump(out, "C18.filter:pushed==in-memory", s, rule="comparison / and / or trees over 7 atoms (with nulls), with and without user-supplied filters")
+                        bump(out, "C18.filter:pushed==in-memory", s, rule="comparison / and / or trees over 11 atoms (7 reader-expressible, 4 not: isin, isna, column-vs-column, negation; with nulls), without / with conjunctive / with disjunctive user-supplied filters")
                         if _same_rows(got, exp, index=keep_index) is False:
                             viol(out, "C18.filter:differs", s, f"pushed={len(got)} rows, in-memory={len(exp)} rows; u values only pushed: {sorted(set(got.u) - set(exp.u))[:5]} only in-memory: {sorted(set(exp.u) - set(got.u))[:5]}", replay)
                     except Exception as ex:
